@@ -250,10 +250,50 @@ def lazy_rule(ctx):
     pcls = repo.cls(f"{PARAMS}._Parameter")
     fset = pcls.methods["__set__"]
     r.instance(fn=fset.qualname)
-    if any(isinstance(n, ast.Call) and (dotted(n.func) or "").endswith("Need_Update") for n in ast.walk(fset.node)):
-        r.ok("_Parameter.__set__ calls instance.Need_Update()")
+    from ..flow import must_pass
+
+    a = fset.node.args.args
+    inst = a[1].arg if len(a) > 1 else "instance"
+
+    def is_need_update(st):
+        # instance.Need_Update() / instance.Need_Update(True): raises the dirty flag
+        if not (isinstance(st, ast.Expr) and isinstance(st.value, ast.Call)):
+            return False
+        c = st.value
+        if not (isinstance(c.func, ast.Attribute) and c.func.attr == "Need_Update" and isinstance(c.func.value, ast.Name) and c.func.value.id == inst):
+            return False
+        vals = list(c.args) + [k.value for k in c.keywords]
+        return all(isinstance(v, ast.Constant) and v.value is True for v in vals)
+
+    def updatable_guard(test):
+        # isinstance(instance, Updatable): the only condition under which the flag may be skipped
+        return (isinstance(test, ast.Call) and dotted(test.func) == "isinstance" and len(test.args) == 2 and isinstance(test.args[0], ast.Name)
+                and test.args[0].id == inst and (dotted(test.args[1]) or "").split(".")[-1] == "Updatable")
+
+    if must_pass(fset.node.body, is_need_update, updatable_guard):
+        r.ok("_Parameter.__set__: every completing path (for an Updatable owner) calls instance.Need_Update()")
     else:
-        r.fail(fset.qualname, "need-update", fset.file, fset.lineno, "_Parameter.__set__", "setting a parameter no longer raises Need_Update: the law is not recomputed on next read")
+        r.fail(fset.qualname, "need-update", fset.file, fset.lineno, "_Parameter.__set__", "some path through _Parameter.__set__ stores/keeps a parameter without raising Need_Update on the owner (only `isinstance(instance, Updatable)` may guard it): an assignment - e.g. of an array edited in place by the caller - leaves C and S stale")
+    # subclasses must not override __set__ / __get__ without the same discipline
+    for pc in repo.subclasses(pcls):
+        for nm in ("__set__",):
+            m = pc.methods.get(nm)
+            if m is not None and m.cls is pc:
+                r.instance(fn=m.qualname)
+                aa = m.node.args.args
+                inst2 = aa[1].arg if len(aa) > 1 else "instance"
+                sup = any(isinstance(n, ast.Call) and isinstance(n.func, ast.Attribute) and n.func.attr == "__set__" and isinstance(n.func.value, ast.Call) and dotted(n.func.value.func) == "super" for n in ast.walk(m.node))
+                if sup:
+                    r.ok(f"{pc.name}.__set__ delegates to _Parameter.__set__")
+                else:
+                    r.fail(m.qualname, "need-update", m.file, m.lineno, f"{pc.name}.__set__", "overrides __set__ without delegating to _Parameter.__set__: Need_Update is not raised")
+    fget = pcls.methods["__get__"]
+    r.instance(fn=fget.qualname)
+    rets = [n for n in ast.walk(fget.node) if isinstance(n, ast.Return) and n.value is not None]
+    if rets and all(isinstance(n.value, ast.Call) and ((dotted(n.value.func) or "") in ("copy.copy", "copy.deepcopy", "copy", "deepcopy", "np.copy", "np.array") or (isinstance(n.value.func, ast.Attribute) and n.value.func.attr in ("copy", "__copy__", "__deepcopy__"))) for n in rets):
+        r.ok("_Parameter.__get__ hands out a copy: the stored value cannot be edited behind the dirty flag")
+    else:
+        r.fail(fget.qualname, "get-copy", fget.file, fget.lineno, "_Parameter.__get__", "reading a parameter returns the stored object itself: `law.E[0] = x` would change the law without raising Need_Update")
     base = repo.cls(f"{LAWS}._Elastic")
     for ci in [base] + repo.subclasses(base):
         for name, expr in ci.class_attrs.items():
